@@ -7,8 +7,11 @@ pub struct TabCfg {
 
 impl TabCfg {
     pub fn new(width: usize) -> Self {
+        // (an enormous --tabs value must not be turned into that many blanks per tab: a line is
+        // cut to --max-line-length before its tabs are expanded, so every tab of a line of tabs
+        // is multiplied by this width)
         TabCfg {
-            replacement: " ".repeat(width),
+            replacement: " ".repeat(width.min(u8::MAX as usize)),
         }
     }
     pub fn width(&self) -> usize {
